@@ -32,6 +32,8 @@ var families = []string{
 	"nested-block-comment",       // /* /* */ */
 	"placeholder-lookalike",      // user text that looks like __STR_n__ / __IDENT_n__
 	"dollar-quote",               // $$…$$, $tag$…$tag$, stray `$`
+	"query-function",             // query('<sql text>') / query_table('<name>'): SQL handed over inside a string literal
+	"denylist-gap",               // table functions of the linked DuckDB that are not on the denylist
 	"header-glued-from",          // header set; FROM glued to a preceding digit (single-table fast path)
 	"header-cte-gate",            // header set; CTE-name exclusion on the permission side only
 	"header-call-newline",        // header set; identifier followed by newline + '('
@@ -48,6 +50,7 @@ type gen struct {
 	r    *vh.Rand
 	root string
 	deny []string // file-reading function names (from factgen when available)
+	tableFuncs []string // every table function / table macro of the linked DuckDB
 }
 
 func (g *gen) secretPath() string { return g.root + "/" + secretDB + "/cpu/**/*.parquet" }
@@ -222,16 +225,46 @@ func (g *gen) grid() []stmt {
 	}
 	// scalar (non-table) file functions and near-miss names
 	for _, s := range []string{"SELECT read_text('" + sp + "')", "SELECT content FROM read_text('" + sp + "')", "SELECT * FROM read_parquet_mock('" + sp + "')",
-		"SELECT * FROM xread_parquet('" + sp + "')", "SELECT * FROM query('SELECT 42')", "SELECT * FROM query_table('" + secretDB + ".cpu')",
-		"SELECT * FROM query('SELECT canary FROM parquet_scan(''" + sp + "'')')", "SELECT * FROM parquet_scan ('" + sp + "')",
+		"SELECT * FROM xread_parquet('" + sp + "')", "SELECT * FROM parquet_scan ('" + sp + "')",
 		"SELECT * FROM duckdb_functions() WHERE function_name = 'glob'", "SELECT * FROM read_parquet ('" + sp + "')",
 		"SELECT * FROM arc_partition_agg('" + sp + "')", "SELECT * FROM delta_scan('" + g.root + "')", "SELECT * FROM iceberg_scan('" + g.root + "')",
 		"SELECT * FROM read_ndjson_objects('" + sp + "')", "SELECT * FROM read_json_objects_auto('" + sp + "')", "SELECT * FROM read_xlsx('" + sp + "')",
 		"SELECT * FROM parquet_bloom_probe('" + sp + "', 'canary', 'x')", "SELECT * FROM read_duckdb('" + sp + "')", "SELECT * FROM sniff_csv('" + sp + "')",
-		"SELECT * FROM read_csv(['" + sp + "'])", "SELECT * FROM parquet_full_metadata('" + sp + "')", "SELECT * FROM read_avro('" + sp + "')",
+		"SELECT * FROM read_csv(['" + sp + "'])", "SELECT * FROM read_avro('" + sp + "')",
 		"SELECT * FROM read_lines('" + sp + "')", "SELECT * FROM read_blob('" + g.root + "/" + secretDB + "/**')", "SELECT size FROM read_text('" + g.root + "/**/*.parquet')",
 		"SELECT * FROM file_glob('" + sp + "')", "SELECT file FROM GLOB('" + g.root + "/*/*')"} {
 		add("reader-spelling", "misc", "", s)
+	}
+
+	// --- table functions that execute SQL text / resolve table names handed over as STRINGS
+	for _, hdr := range []string{"", allowedDB} {
+		for _, q := range []string{
+			"SELECT * FROM query('SELECT 42')",
+			"SELECT * FROM query('SELECT canary FROM parquet_scan(''" + sp + "'')')",
+			"SELECT * FROM query($$SELECT canary FROM parquet_scan('" + sp + "')$$)",
+			"SELECT * FROM QUERY ('SELECT canary FROM ''" + sp + "''')",
+			"SELECT * FROM \"query\"('SELECT canary FROM glob(''" + sp + "'')')",
+			"SELECT b.* FROM " + okTable(hdr) + " a, query('SELECT canary FROM parquet_scan(''" + sp + "'')') b",
+			"SELECT * FROM query_table('" + secretDB + ".cpu')",
+			"SELECT * FROM query_table('" + sp + "')",
+			"SELECT * FROM query_table(['" + sp + "'])",
+			"SELECT (SELECT max(canary) FROM query('SELECT canary FROM parquet_scan(''" + sp + "'')')) AS c",
+		} {
+			add("query-function", "grid", hdr, q)
+		}
+	}
+	// --- every table function the linked DuckDB knows that is NOT on the denylist
+	for _, fn := range g.tableFuncs {
+		denied := false
+		for _, d := range g.deny {
+			denied = denied || strings.EqualFold(d, fn)
+		}
+		if denied || fn == "query" || fn == "query_table" {
+			continue
+		}
+		add("denylist-gap", fn, "", "SELECT * FROM "+fn+"('"+sp+"')")
+		add("denylist-gap", fn, "", "SELECT * FROM "+fn+"(['"+sp+"'])")
+		add("denylist-gap", fn, allowedDB, "SELECT b.* FROM cpu a, "+fn+"('"+sp+"') b")
 	}
 
 	// --- lexical disguises: hide a live payload from the validator
